@@ -51,6 +51,7 @@ RULES = {
     "R15": "`E.and_then(|row| row.get(I)).unwrap_or(&0)` -> stub `get_or_zero(E, I)`",
     "R22": "`match E { Some(&P) => .. }` -> `match E.copied() { Some(P) => .. }`",
     "R23": "`E == Some(&LIT)` -> `matches!(E.copied(), Some(LIT))`",
+    "R26": "call renaming: `path::f(ARGS)` -> overlay-declared stub `g(ARGS)` (for std/dependency functions without a Verus spec)",
     "R17": "`E.parse::<T>()` -> stub `parse_T(E)` with an unconstrained result",
     "R18": "`E.map_err(|_| C)?` -> `match E { Ok(v) => v, Err(_) => return Err(C) }`",
     "R9": "`E as <int>` -> `#[verifier::truncate] (E as <int>)` (Rust `as` is truncation)",
@@ -159,6 +160,27 @@ def apply_common_rules(text, ed, rules, log, where):
                         log.append(("D2", where, t.text + "!"))
                         i = e + 1; continue
         i += 1
+    if _CUR_OPTS.get("fnmap"):
+        # R26: call renaming `path::to::f(ARGS)` -> `stub(ARGS)` whatever the arguments are (overlay declares the stub)
+        for pair in _CUR_OPTS["fnmap"].split(","):
+            src_path, dst = pair.split("=>")
+            parts = src_path.split("::")
+            i = 0
+            while i < len(toks):
+                if toks[i].kind == "ident" and toks[i].text == parts[0]:
+                    j = i; ok = True
+                    for part in parts[1:]:
+                        n1 = next_code(toks, j)
+                        n2 = next_code(toks, n1) if n1 is not None else None
+                        if n1 is None or n2 is None or toks[n1].text != "::" or toks[n2].text != part: ok = False; break
+                        j = n2
+                    nx = next_code(toks, j) if ok else None
+                    pv = prev_code(toks, i)
+                    if ok and nx is not None and toks[nx].text == "(" and not (pv is not None and toks[pv].text in ("::", ".", "fn")):
+                        ed.replace(toks[i].start, toks[j].end, dst)
+                        log.append(("R26", where, f"{src_path}(..) -> {dst}(..)"))
+                        i = j + 1; continue
+                i += 1
     if "R11" in rules:
         # `crate::a::b::X` / `super::X` -> `X` (single-file assembly has no module tree)
         i = 0
